@@ -820,7 +820,8 @@ func newWorld(t *testing.T, out *hx.Out, rng *rand.Rand, mode string, cfg cfgT) 
 	p := w.k.GetParams(ctx)
 	w.window = uint64(2 + rng.Intn(4))
 	p.SignedWindow = w.window
-	thrChoices := []sdkmath.Int{w.pr.MulRaw(100), w.pr.MulRaw(10), w.pr.MulRaw(100).AddRaw(7), w.pr.MulRaw(3).QuoRaw(2)}
+	// the last two give oracles whose power (stake / powerReduction) is 0, or 0 until they top up
+	thrChoices := []sdkmath.Int{w.pr.MulRaw(100), w.pr.MulRaw(10), w.pr.MulRaw(100).AddRaw(7), w.pr.MulRaw(3).QuoRaw(2), w.pr.MulRaw(100), w.pr.MulRaw(10), w.pr.QuoRaw(2), w.pr.SubRaw(1)}
 	w.thr = thrChoices[rng.Intn(len(thrChoices))]
 	w.mult = []int64{10, 2, 1, 5}[rng.Intn(4)]
 	// OracleSetUpdatePowerChangePercent: default 10 %, plus boundary values (0 = refresh every block, 1 = cap)
@@ -1036,6 +1037,14 @@ func (w *world) sequence(length int) {
 		case r < 53:
 			w.opNudge()
 		case r < 58:
+			if len(w.removed) > 0 && rng.Intn(2) == 0 { // prefer an oracle governance has removed
+				var ids []int
+				for id := range w.removed {
+					ids = append(ids, id)
+				}
+				sort.Ints(ids)
+				o = ids[rng.Intn(len(ids))]
+			}
 			amt := w.pickAmt()
 			if rec, ok := w.k.GetOracle(w.ctx(), w.oracles[o].AccAddress()); ok && rng.Intn(3) > 0 {
 				sl := rec.GetSlashAmount(w.k.GetSlashFraction(w.ctx()))
@@ -1105,16 +1114,52 @@ func (w *world) lifecycle(variant int) {
 		all[i] = i
 	}
 	w.opGov(all)
+	// stake bounds at ±1 (always): below the threshold, one above the maximum, then exactly the maximum for one oracle
+	max := w.thr.MulRaw(w.mult)
+	w.opBond(0, 0, 0, 0, w.thr.SubRaw(1))
+	w.opBond(0, 0, 0, 0, max.AddRaw(1))
+	w.opBond(0, 0, 0, 0, max.Add(w.thr))
 	for i := 0; i < n; i++ {
+		if variant%6 == 5 && i == n-1 {
+			continue // the late joiner
+		}
 		w.opBond(i, i, i, i%w.nval, w.thr)
 	}
 	dil := map[int]bool{}
 	for i := 0; i < n; i++ {
 		dil[i] = true
 	}
+	w.opAdd(1, max.Sub(w.thr).AddRaw(1)) // one above the maximum in total
 	w.opBlock(5)
 	w.confirmRound(dil, 1)
-	switch variant % 5 {
+	if (variant/6)%2 == 1 { // the latest oracle set is observed on the external chain, then nothing changes for a while
+		w.opObserve(w.k.GetLatestOracleSetNonce(w.ctx()))
+	}
+	switch variant % 6 {
+	case 5: // late joiner: objects created before an oracle joined age unconfirmed by it; it confirms what was created after
+		// (the last oracle account has not bonded yet: see the caller)
+		w.opMkBatch()
+		w.opMkCall()
+		w.opBlock(5)
+		w.confirmRound(dil, 1)
+		late := n - 1
+		w.opBond(late, late, late, late%w.nval, w.thr)
+		rec, ok := w.k.GetOracle(w.ctx(), w.oracles[late].AccAddress())
+		for i := uint64(0); i < w.window+3 && !w.dead; i++ {
+			w.opBlock(5)
+			if w.dead {
+				break
+			}
+			delete(dil, late)
+			w.confirmRound(dil, 1)
+			if ok { // the late joiner confirms exactly the objects created at or after its start height
+				for _, x := range w.objects() {
+					if x.height >= uint64(rec.StartHeight) && !strings.Contains("."+w.confExts(x.kind, x.nonce)+".", fmt.Sprintf(".%d.", late)) {
+						w.opConf(x.kind, x.nonce, late, late, true)
+					}
+				}
+			}
+		}
 	case 3: // small relative power changes (whole power units, sized around the refresh threshold) with no slash in the block
 		for r := 0; r < 7 && !w.dead; r++ {
 			w.opNudge()
@@ -1128,7 +1173,7 @@ func (w *world) lifecycle(variant int) {
 		w.opMkCall()
 		w.confirmRound(dil, 1)
 		w.opEditB(0, n)
-		if variant%2 == 0 {
+		if (variant/6)%2 == 0 {
 			w.opEditB(1, n+1)
 		}
 		for i := uint64(0); i < w.window+3 && !w.dead; i++ {
@@ -1137,11 +1182,15 @@ func (w *world) lifecycle(variant int) {
 				w.confirmRound(dil, 1)
 			}
 		}
-	case 0: // removal, early unbond attempt, maturity, unbond
+	case 0: // removal, the removed oracle tries to top up / act, early unbond attempt, maturity, unbond
 		w.opGov(all[1:])
+		w.opAdd(0, sdkmath.OneInt())
+		w.opAdd(0, w.pr)
+		w.opEditB(0, n)
+		w.opWithdraw(0)
 		w.opBlock(5)
 		w.confirmRound(dil, 1)
-		if variant%2 == 0 {
+		if (variant/6)%2 == 0 {
 			w.opUnbond(0)
 		}
 		w.opBlock(w.unb + 1)
@@ -1176,7 +1225,7 @@ func (w *world) lifecycle(variant int) {
 		w.opGov(all[1:])
 		w.opBlock(w.unb + 1)
 		w.confirmRound(dil, 1)
-		if variant%2 == 0 {
+		if (variant/6)%2 == 0 {
 			w.opGov(all)
 			w.opAdd(0, w.thr)
 			w.opBlock(5)
@@ -1193,8 +1242,8 @@ func runAll(t *testing.T, mode string) {
 	rng := rand.New(rand.NewSource(seed))
 	out := hx.NewOut()
 	defer out.Close("correspondence: real eth crosschain module + real staking/bank (FinalizeBlock per `block`, block time moved past the unbonding period) vs Lean model, canonical registry/stake/slashing state after every op; monitors: registry one-to-one, bond bounds, penalty once, stake recoverable (dry-run UnbondedOracle after maturity), slashed only for missed signing, FinalizeBlock never panics. non-trivial = distinct (op, outcome) classes")
-	nseq := hx.N(30, 400)
-	const nLife = 10
+	nseq := hx.N(32, 400)
+	const nLife = 12
 	length := 28
 	if hx.Tier() == "thorough" {
 		length = 45
@@ -1204,9 +1253,9 @@ func runAll(t *testing.T, mode string) {
 	}
 	for i := 0; i < nseq; i++ {
 		cfg := cfgT{}
-		if i < nLife && i%5 == 3 {
+		if i < nLife && i%6 == 3 {
 			cfg.mult = 10
-			if i >= 5 {
+			if i >= 6 {
 				five := sdkmath.LegacyNewDecWithPrec(5, 2)
 				cfg.pct = &five
 			}
